@@ -77,79 +77,89 @@ class DefaultEvaluatorStep(PlanStep):
         """
         config = EnOptConfig.model_validate(config, context=transforms)
 
-        self.emit_event(
-            Event(
-                event_type=EventType.START_EVALUATOR_STEP,
-                config=config,
-                source=self.id,
-            )
-        )
-
-        if variables is None:
-            variables = config.variables.initial_values
-        variables = np.array(np.asarray(variables, dtype=np.float64), ndmin=1)
-
-        ensemble_evaluator = EnsembleEvaluator(
-            config,
-            transforms,
-            self.plan.optimizer_context.evaluator,
-            self.plan.optimizer_context.plugin_manager,
-        )
-
         exit_code = OptimizerExitCode.EVALUATION_STEP_FINISHED
 
-        self.emit_event(
-            Event(
-                event_type=EventType.START_EVALUATION,
-                config=config,
-                source=self.id,
-            )
-        )
+        # An abort raised by a handler or observer of any event emitted by this
+        # step is reported as the exit code of the step:
         try:
-            results = ensemble_evaluator.calculate(
-                variables, compute_functions=True, compute_gradients=False
+            self.emit_event(
+                Event(
+                    event_type=EventType.START_EVALUATOR_STEP,
+                    config=config,
+                    source=self.id,
+                )
             )
-        except OptimizationAborted as exc:
-            # The evaluation was aborted, there are no results to report:
-            exit_code = exc.exit_code
-        else:
-            assert results
-            assert isinstance(results[0], FunctionResults)
-            if results[0].functions is None:
-                exit_code = OptimizerExitCode.TOO_FEW_REALIZATIONS
 
-            if metadata is not None:
-                for item in results:
-                    item.metadata = deepcopy(metadata)
+            if variables is None:
+                variables = config.variables.initial_values
+            variables = np.array(np.asarray(variables, dtype=np.float64), ndmin=1)
 
-            data: dict[str, Any] = {}
-            if transforms is not None:
-                data["transformed_results"] = results
-                data["results"] = [
-                    item.transform_from_optimizer(transforms) for item in results
-                ]
-            else:
-                data["results"] = results
+            ensemble_evaluator = EnsembleEvaluator(
+                config,
+                transforms,
+                self.plan.optimizer_context.evaluator,
+                self.plan.optimizer_context.plugin_manager,
+            )
 
             self.emit_event(
                 Event(
-                    event_type=EventType.FINISHED_EVALUATION,
+                    event_type=EventType.START_EVALUATION,
                     config=config,
                     source=self.id,
-                    data=data,
                 )
             )
+            try:
+                results = ensemble_evaluator.calculate(
+                    variables, compute_functions=True, compute_gradients=False
+                )
+            except OptimizationAborted as exc:
+                # The evaluation was aborted, there are no results to report:
+                exit_code = exc.exit_code
+            else:
+                assert results
+                assert isinstance(results[0], FunctionResults)
+                if results[0].functions is None:
+                    exit_code = OptimizerExitCode.TOO_FEW_REALIZATIONS
+
+                if metadata is not None:
+                    for item in results:
+                        item.metadata = deepcopy(metadata)
+
+                data: dict[str, Any] = {}
+                if transforms is not None:
+                    data["transformed_results"] = results
+                    data["results"] = [
+                        item.transform_from_optimizer(transforms) for item in results
+                    ]
+                else:
+                    data["results"] = results
+
+                self.emit_event(
+                    Event(
+                        event_type=EventType.FINISHED_EVALUATION,
+                        config=config,
+                        source=self.id,
+                        data=data,
+                    )
+                )
+        except OptimizationAborted as exc:
+            exit_code = exc.exit_code
 
         if exit_code == OptimizerExitCode.USER_ABORT:
             self.plan.abort()
 
-        self.emit_event(
-            Event(
-                event_type=EventType.FINISHED_EVALUATOR_STEP,
-                config=config,
-                source=self.id,
+        try:
+            self.emit_event(
+                Event(
+                    event_type=EventType.FINISHED_EVALUATOR_STEP,
+                    config=config,
+                    source=self.id,
+                )
             )
-        )
+        except OptimizationAborted as exc:
+            exit_code = exc.exit_code
+            if exit_code == OptimizerExitCode.USER_ABORT:
+                self.plan.abort()
 
         return exit_code
 
